@@ -588,6 +588,7 @@ def atom_losses(ref, cur, cats, reach=None):
                 g = hv - set(ref[path].get(c, []))
                 if g:
                     gain_old.setdefault(cr, {}).setdefault(c, {}).setdefault(path, set()).update(g)
+    new_fn_names = {re.sub(r"<[^<>]*>", "", p_).split("::")[-1] for p_ in cur if p_ not in ref}
     gone = [path for path in ref if path not in cur]
     gone_short = set()
     for g in gone:
@@ -598,6 +599,12 @@ def atom_losses(ref, cur, cats, reach=None):
         gn = gain_new.get(cr, {}).get(c, ())
         if A.erase_params(x) in gn or (_head(x) + " ?") in gn:
             return True
+        if c in ("dec", "must", "grd", "grdn"):
+            # an emptiness test whose receiver is named by provenance (`data.is_empty()` on a value the caller got from getters): inside a new
+            # helper the receiver is a parameter and the name is gone; the same predicate in a new function of the crate is the moved test
+            m = re.match(r'^\["if", \["(call:::(?:is_empty|is_zero|is_none|is_some|is_ok|is_err))"', x)
+            if m and any(y.startswith('["if", ["%s"' % m.group(1)) for y in gain_new.get(cr, {}).get("dec", ())):
+                return True
         for path, g in gain_old.get(cr, {}).get(c, {}).items():
             if path != own and x in g:
                 return True
@@ -656,6 +663,9 @@ def atom_losses(ref, cur, cats, reach=None):
                         continue      # one of the two steps is no longer called here: that loss (or its move into a helper) is decided by its `call` atom
                 if c == "arg" and (_head(x) + " ?") in hv:
                     continue      # the same argument is still passed; its value is opaque to the form analysis now
+                if c in ("dec", "must", "grd", "grdn") and gained_calls and re.match(r'^\["if", \["call:::(?:is_empty|is_zero|is_none|is_some|is_ok|is_err)"', x) \
+                        and any(g.split("::")[-1] in new_fn_names for g in gained_calls):
+                    continue      # an emptiness test named by provenance, and the function now calls a function that did not exist: the test moved there
                 if c in ("arg", "recv", "fld", "set", "dec") and via_new_call(c, x, hv, gained_calls):
                     continue      # the same step / test is still there and its operand now comes out of a function this one did not call before
                 if c in ("arg", "recv", "fld", "set") and shrunk_into_helper(x, hv, gain_new.get(cr, {})):
